@@ -89,6 +89,7 @@ def main():
     env = dict(os.environ)
     env["CARGO_NET_OFFLINE"] = "true"
     env["VERIF_WORKERS"] = env.get("VERIF_WORKERS", "8")
+    env["VERIF_MINIMISE"] = "0"  # only the verdict matters here
     out = open(os.path.join(scratch, "results.jsonl"), "a")
     for (mid, props, f, old, new, nth) in MUTANTS:
         if only and mid not in only:
